@@ -89,7 +89,7 @@ def cstr(s):
 def ctext(t):
     if is_plain(t):
         return f'(S {coq_lit(t)})'
-    return '(map ascii_of_nat [' + '; '.join(str(b) for b in t.encode('utf-8', 'surrogatepass')) + '])'
+    return '(map ascii_of_nat [' + '; '.join(str(b) for b in t.encode('utf-8', 'surrogatepass')) + ']%nat)'
 
 
 def cq(fr):
@@ -212,7 +212,7 @@ def cbuilder(doc, r, unit_str):
                 clist([f'({p})%Z' for p in c['powers']]), clist([cqf(h) for h in c['coeffs']]),
                 copt(None if not c.get('var') else clist([cqf(h) for h in c['var']])), cps(c.get('comment', ''))))
     first = 1 + (int(doc.get('saves', 1)) - 1) * n_auth
-    comment = doc['override_comment'] if doc.get('override_comment') is not None else doc.get('comment', '')
+    comment = doc['override_comment'] if doc.get('override_comment') else doc.get('comment', '')
     return f'mkbcase {cps(doc["name"])} {cps(comment)} {clist(calls)} {first} {coutcome(r)}'
 
 
@@ -528,10 +528,10 @@ def systematic():
     out = []
     for cls, exs in EXEMPLARS.items():
         for s in exs:
-            out.append((f'quote:{cls}', single_pair(s), s))
-            out.append((f'quote:{cls}', loop_first(s), s))
+            out.append((f'quote:{classify(s)}', single_pair(s), s))
+            out.append((f'quote:{classify(s)}', loop_first(s), s))
             if cls in ('lead-semicolon', 'newline', 'quotes'):
-                out.append((f'quote:{cls}', loop_first(s, flat=True), s))
+                out.append((f'quote:{classify(s)}', loop_first(s, flat=True), s))
     # structural probes
     out.append(('block-code:empty', {'kind': 'low', 'comment': '', 'blocks': [{'name': '', 'comment': '', 'schema': None,
                                                                               'items': []}]}, ''))
@@ -722,12 +722,12 @@ def _domain_stats(ctx, hdr, n_low, n_bld, shard):
     low_sum = ' + '.join(f'length (filter (in_domain core Pimpl) {m}.cases)' for m in mods if m.startswith('low')) or '0'
     bld_sum = ' + '.join(f'length (filter (fun b => in_domain core Pimpl (build core pd version spallation b)) {m}.cases)'
                          for m in mods if m.startswith('bld')) or '0'
-    body += (f'Eval vm_compute in (("low", {low_sum}), ("builder", {bld_sum}), ("fixed-rule", Tie.is_fixed), '
+    body += (f'Eval vm_compute in (("low", ({low_sum})%nat), ("builder", ({bld_sum})%nat), ("fixed-rule", Tie.is_fixed), '
              f'("current-rule", Tie.is_current)).\n')
     with open(os.path.join(ctx.build, 'Stats.v'), 'w') as f:
         f.write(body)
     rc, out = ctx.coqc('Stats.v', timeout=600)
-    m = re.search(r'"low",\s*(\d+)\),\s*\("builder",\s*(\d+)\),\s*\("fixed-rule",\s*(\w+)\),\s*\("current-rule",\s*(\w+)\)', out)
+    m = re.search(r'"low",\s*(\d+)(?:%nat)?,\s*\("builder",\s*(\d+)(?:%nat)?\),\s*\("fixed-rule",\s*(\w+)\),\s*\("current-rule",\s*(\w+)\)', out)
     if rc != 0 or not m:
         ctx.note('domain statistics could not be computed: ' + out[-300:])
         return {}
